@@ -55,6 +55,10 @@ def decode_all(rec):
             elif ev[0] == 'seq':
                 # the harness moved both endpoints' sequence numbers
                 (sess.cs if ev[1] == 'cs' else sess.sc).seq = ev[2]
+            elif ev[0] == 'iv':
+                # the harness moved the AES-GCM nonce of one direction on
+                # both endpoints (any value can come out of key derivation)
+                (sess.cs if ev[1] == 'cs' else sess.sc).gcm_iv = ev[2]
             else:
                 sess.feed(ev[1], ev[2])
     except wire.WireError as exc:
@@ -266,6 +270,30 @@ def seq_jump(value):
     return cb
 
 
+class NoNonceAccess(Exception):
+    """The nonce of the negotiated cipher cannot be set from outside."""
+
+
+def iv_jump(ivs):
+    """after_connect callback: replace the AES-GCM nonce (fixed field +
+    invocation counter, 12 bytes) of direction d by ivs[d] on the sending and
+    on the receiving endpoint, and tell the decoder.  The initial nonce comes
+    out of the key derivation, so any value is one a session can start from;
+    specs/Transport/Nonce.tla chooses the ones that make carries happen."""
+    async def cb(conn, sconn, rec):
+        for a, b, d in ((conn, sconn, 'cs'), (sconn, conn, 'sc')):
+            ca = getattr(getattr(a, '_send_encryption', None), '_cipher', None)
+            cb_ = getattr(getattr(b, '_recv_encryption', None), '_cipher', None)
+            if not isinstance(getattr(ca, '_iv', None), bytes) or \
+                    not isinstance(getattr(cb_, '_iv', None), bytes) or \
+                    len(ca._iv) != 12:
+                raise NoNonceAccess(d)
+            ca._iv = ivs[d]
+            cb_._iv = ivs[d]
+            rec.events.append(('iv', d, ivs[d]))
+    return cb
+
+
 class Mitm:
     """On-path adversary at packet granularity.  Every transport.write() is
     one SSH packet; packets of a direction are numbered from 1 starting with
@@ -355,6 +383,9 @@ class Mitm:
                 w = a['what']
                 if w == 'replay':
                     ins = self.seen[d][0] if len(self.seen[d]) > 1 else data
+                elif w == 'back':
+                    # the packet written a['back'] packets earlier
+                    ins = self.seen[d][n - 1 - a['back']]
                 elif w == 'foreign':
                     # a packet of the OTHER direction - the one with the same
                     # sequence number if that direction has got that far (so
